@@ -380,6 +380,62 @@ func genTable(cfg Config, emit0 func(string, bool, []string)) {
 			emit("table index-wide-channels", true, g.ops)
 			continue
 		}
+		if c%40 == 35 {
+			// the last change iterator is closed while deletions it was never handed are still retained
+			// and BEFORE the collector runs; a deleted key is inserted again, a new iterator created, the
+			// key deleted again (and once more through the other delete operations)
+			g.add("wtxn m")
+			g.add("changes m")
+			for i := 0; i < 3; i++ {
+				g.add("ins m %s %d 0 - - 0 %d", hx([]byte{'k', byte('0' + i)}), i, i+1)
+			}
+			g.add("commit")
+			g.nsnap++
+			g.add("rtxn")
+			g.nsnap++
+			g.add("next 0 s%d -1", g.nsnap-1)
+			g.add("wtxn m")
+			g.add("del m %s", hx([]byte("k0")))
+			g.add("del m %s", hx([]byte("k1")))
+			g.add("commit")
+			g.nsnap++
+			g.add("cclose 0")
+			g.add("glen - m")
+			g.add("wtxn m")
+			g.add("ins m %s 10 0 - - 0 7", hx([]byte("k0")))
+			if r.IntN(2) == 0 {
+				g.add("ins m %s 11 0 - - 0 8", hx([]byte("k1")))
+			}
+			g.add("commit")
+			g.nsnap++
+			g.add("glen - m")
+			g.add("wtxn m")
+			g.add("changes m")
+			g.add("commit")
+			g.nsnap++
+			g.add("wtxn m")
+			switch r.IntN(3) {
+			case 0:
+				g.add("del m %s", hx([]byte("k0")))
+			case 1:
+				g.add("delall m")
+			default:
+				g.add("del m %s", hx([]byte("k0")))
+				g.add("ins m %s 12 0 - - 0 9", hx([]byte("k0")))
+				g.add("del m %s", hx([]byte("k0")))
+			}
+			g.add("commit")
+			g.nsnap++
+			g.add("rtxn")
+			g.nsnap++
+			g.add("next 1 s%d -1", g.nsnap-1)
+			g.add("glen - m")
+			g.add("gcidle")
+			g.add("glen - m")
+			g.add("all - m")
+			emit("table reinsert-before-collection", true, g.ops)
+			continue
+		}
 		if ck == 5 {
 			// iterator closed while it still has unobserved deletions: nothing may stay
 			// retained once the collector has handled the triggers the close produced
